@@ -203,9 +203,14 @@ def _parse_genes(chrom: str, db: FeatureDB) -> List[Dict]:
             transcript_qualifiers = {
                 x: y for x, y in transcript.attributes.items() if not BioCantorGFF3ReservedQualifiers.has_value(x)
             }
-            provided_transcript_biotype = gene_or_feature.attributes.get(
-                "transcript_biotype", [gene_or_feature.attributes.get("transcript_type", None)]
+            # the transcript row says what this transcript is; the gene row is the fallback
+            provided_transcript_biotype = transcript.attributes.get(
+                "transcript_biotype", transcript.attributes.get("transcript_type", [None])
             )[0]
+            if not Biotype.has_name(provided_transcript_biotype):
+                provided_transcript_biotype = gene_or_feature.attributes.get(
+                    "transcript_biotype", [gene_or_feature.attributes.get("transcript_type", None)]
+                )[0]
 
             if Biotype.has_name(provided_transcript_biotype):
                 transcript_biotype = Biotype[provided_transcript_biotype]
